@@ -9,6 +9,7 @@ from vlib import ref_toast as rt
 
 PROPERTY = "C12"
 LEVEL = "exploration"
+OPTIMIZED_SAMPLE = (6, 40)  # cases repeated under python -O (quick, thorough)
 JOBS = 16
 CASE_TIMEOUT = 600
 RULE = (
